@@ -36,7 +36,13 @@ def _is_container_ty(ty):
 def _is_pool_ty(ty):
     ty = ty.strip()
     m = re.match(r"^(alloc::vec::Vec|alloc::collections::vec_deque::VecDeque|smallvec::SmallVec)<(.*)>$", ty)
-    return bool(m and _is_container_ty(m.group(2)))
+    if not m:
+        return False
+    inner = m.group(2)
+    am = re.match(r"^\[(.*); [^;\]]+\]$", inner)      # SmallVec<[Elem; N]>
+    if am:
+        inner = am.group(1)
+    return _is_container_ty(inner)
 
 
 def tail2(n):
